@@ -499,4 +499,4 @@ def ref_reason(msg):
 
 
 def parts(ctx):
-    return [Part('histories', run, strategy=histories(), n=ctx.n(300, 6000), budget_s=ctx.n(150, 3000))]
+    return [Part('histories', run, strategy=histories(), n=ctx.n(600, 6000), budget_s=ctx.n(150, 3000))]
